@@ -9,7 +9,7 @@ if [ -f seeded/$name/meta.json ]; then
 import json, sys
 name, change, rd = sys.argv[1:4]
 p = "seeded/%s/meta.json" % name
-m = json.load(open(p)); m["change"] = change; m["source"] = "round 9 sub-agent (property text + scratch worktree only)"
+m = json.load(open(p)); m["change"] = change; m["source"] = "round 9-10 sub-agent (property text + scratch worktree only)"
 json.dump(m, open(p, "w"), indent=1)
 PY
 fi
